@@ -142,7 +142,10 @@ def check_steps(d, M):
 
 def check_tables(M):
     m = GherkinInMarkdownTokenMatcher("en")
-    rows = {"ordinary": ["| a | b |", "|a|", "| - x | y |", "| 1 | 2 | 3 |", "| é | \U0001F600 |", "| a \\| b |"],
+    rows = {"ordinary": ["| a | b |", "|a|", "| - x | y |", "| 1 | 2 | 3 |", "| é | \U0001F600 |", "| a \\| b |",
+                         # boundary rows: empty cells, colon-only cells, cells that merely start like a separator
+                         "| Aslak |  |", "|| x |", "||", "| : | a |", "| :: |", "| -1 | 2 |", "| --force | yes |", "| :-) | x |", "| a-- | b |",
+                         "| - - | x |", "| -:- | x |", "| \\- | x |"],
             "separator": ["| --- | --- |", "|---|", "| :--- | ---: |", "|:-:|:-:|", "| - | - |"]}
     for n in range(0, 9):
         for kind, rr in rows.items():
@@ -162,6 +165,31 @@ def check_tables(M):
                     exp = refcells.ref_cells(line.rstrip("\n"))
                     if t.matched_type != "TableRow" or got != exp:
                         M.violation("C19.table", {"what": "cells of a recognised row differ from the documented splitting", "got": got, "want": exp}, case)
+    # exhaustive small cells over {-, :, x, blank}: a cell is separator-like iff it is ':'? '-'+ ':'?
+    import itertools
+
+    def sep_like(cell):
+        c = cell.strip()
+        if c.startswith(":"):
+            c = c[1:]
+        if c.endswith(":"):
+            c = c[:-1]
+        return c != "" and set(c) == {"-"}
+    for n in range(0, 5):
+        for w in itertools.product("-:x ", repeat=n):
+            cell = "".join(w)
+            for other, kind in (("y", "ordinary"), ("---", "separator")):
+                if (kind == "ordinary") == sep_like(cell):
+                    continue          # mixed rows are not specified
+                line = "  |" + cell + "|" + other + "|\n"
+                want = kind == "ordinary"
+                res, t = call(m, "match_TableRow", line)
+                M.count("table_row_checks")
+                M.case(h64(["table", line]))
+                if res is not want:
+                    M.violation("C19.table", {"what": "row with a small cell %s" % ("not recognised although no cell is a GFM separator cell" if want else
+                                                                                       "recognised although every cell is a GFM separator cell"),
+                                              "line": line, "result": res}, {"kind": "table", "line": line})
     M.sample({"rows": rows})
 
 
